@@ -480,6 +480,52 @@ func runC03(r *Run) {
 		r.check(cm >= 1, "findParamLen:counts-occurrences", r.fpos(m), "the matcher counts occurrences of ComparePart in the rest of the path", "the matcher no longer counts occurrences of ComparePart")
 	})
 
+	r.rule("R7", "greedy parameters are numbered per kind, as Params reads them (`*` is `*1`, the second `+` is `+2`): in analyseParameterPart every number appended to a parameter name comes from exactly one of the parser's counters, and is appended only behind the test for that kind's marker (E5, writer and reader agree)", func() {
+		f := r.Fn("", "(*routeParser).analyseParameterPart")
+		kinds := []struct {
+			field  string
+			marker int64
+		}{{"routeParser.wildCardCount", '*'}, {"routeParser.plusCount", '+'}}
+		n := 0
+		for _, c := range callsMatching(f, false, nameIs("strconv.Itoa")) {
+			n++
+			arg := c.Common.Args[0]
+			var from []int
+			for k, kd := range kinds {
+				kd := kd
+				if dependsOn(arg, func(v ssa.Value) bool { return loadOfField(v, kd.field) }) != nil {
+					from = append(from, k)
+				}
+			}
+			key := fmt.Sprintf("analyseParameterPart:number#%d:one-counter-of-its-kind", n)
+			if len(from) != 1 {
+				r.check(false, key, r.pos(c.Instr), "", fmt.Sprintf("the number appended to a greedy parameter's name is computed from %d of the parser's counters: with one `*` and one `+` in a pattern (/+/*) the names become +1 and *2, while Params(\"*\") reads *1 — the captured value is lost", len(from)))
+				continue
+			}
+			kd := kinds[from[0]]
+			// behind the marker test of that kind
+			cut := map[edge]bool{}
+			for _, b := range f.Blocks {
+				for _, in := range b.Instrs {
+					bo, ok := in.(*ssa.BinOp)
+					if !ok || bo.Op != token.EQL || !isConstInt(bo.Y, kd.marker) {
+						continue
+					}
+					if _, isIdx := stripValue(bo.X).(*ssa.Index); !isIdx {
+						continue
+					}
+					for _, e := range trueEdgesOf(f, bo) {
+						cut[e] = true
+					}
+				}
+			}
+			_, hit := reach(entryOf(f), func(in ssa.Instruction) bool { return in == c.Instr }, cut, nil)
+			r.check(len(cut) > 0 && hit == nil, key, r.pos(c.Instr), fmt.Sprintf("the number comes from %s and is appended only behind the `%c` test", kd.field, rune(kd.marker)),
+				fmt.Sprintf("the number taken from %s is appended on a path that did not test for the `%c` marker: a parameter of the other kind is numbered with this kind's counter", kd.field, rune(kd.marker)))
+		}
+		r.atLeast("numbers appended to greedy parameter names", n, 1)
+	})
+
 	r.rule("R6", "Params returns the values as sent: what the matchers store into the value array is cut from the path as sent (or constant), never from the normalised detection path, which is case-folded and trimmed (E3)", func() {
 		n := 0
 		for _, name := range []string{"(*Route).match", "(*routeParser).getMatch"} {
